@@ -144,7 +144,7 @@ func cmdVC(args []string) {
 			fmt.Printf("UNCONTRACTED callees of %s: %s\n", vc.name, strings.Join(unc, ", "))
 		}
 	}
-	for _, o := range lemmaObligations(W, "") {
+	for _, o := range lemmaObligations(W, "", nil) {
 		for _, n := range lnames {
 			if o.Name == "lemma/"+n || n == "all" {
 				obls = append(obls, o)
